@@ -28,7 +28,7 @@ def cmdCli (fields : List String) : String :=
   let b := fun k => kv fields k == "1"
   let out := hexStr (kv fields "out")
   let fl : Flags := { parseError := b "perr", usage := b "usage", help := b "help", version := b "version",
-                      out := out, name := hexStr (kv fields "name"), file := if b "file" then some "f" else none }
+                      out := out, name := hexStr (kv fields "name"), args := if kv fields "args" == "" then (if b "file" then ["f"] else []) else ((kv fields "args").splitOn ",").map hexStr }
   let sr : SpecResult := ⟨b "parse", hexStr (kv fields "gname"), b "lexer", b "parser"⟩
   let name := chosenName fl sr
   let fs0 : FS := (match nodeOfState (kv fields "outstate") with | some n => [(out, n)] | none => []) ++
